@@ -121,7 +121,7 @@ def run(tier):
     # algebra of C16 under each standard: if every standard meets the same specification on every path,
     # the standards agree with each other on those results
     parts.run_parts(ck, tier, ir_parts=('ir_alloc', 'ir_pair', 'ir_bounds', 'ir_growth', 'ir_noexcept', 'ir_laws', 'ir_compare'),
-                    cfgs=sel, rule_filter=lambda part, x: not (part == 'ir_laws' and x.rule == 'R03.7'))
+                    cfgs=sel, rule_filter=lambda part, x: not (part == 'ir_laws' and x.rule in ('R03.7', 'R03.8')))
     # R17.2: the type-level tables under every standard (the witness parts generate their
     # per-standard expectations from feature macros)
     if tier == 'thorough':
